@@ -66,7 +66,8 @@ def session_sum(e, attr):
     if not isinstance(g, (ast.GeneratorExp, ast.ListComp)) or len(g.generators) != 1 or g.generators[0].ifs:
         return False
     gen = g.generators[0]
-    return isinstance(gen.target, ast.Name) and canon(gen.iter) == "sim.ev_history.values()" and canon(g.elt) == f"{gen.target.id}.{attr}"
+    from ..flow import _strip_seq
+    return isinstance(gen.target, ast.Name) and canon(_strip_seq(gen.iter)) == "sim.ev_history.values()" and canon(g.elt) == f"{gen.target.id}.{attr}"
 
 
 def rule_energy_totals(ck, rid="C18.energy"):
@@ -307,12 +308,15 @@ def rule_nema(ck, rid="C18.nema"):
 def rule_datetimes(ck, rid="C18.datetimes"):
     check_units(ck, rid, ck.repo.fn("datetimes_array"), UNITS["datetimes_array"])     # first: also reports truncation of the period
     f, fl, r, e = single_return(ck, "datetimes_array")
-    lst = collect_list(fl, r.expr, r)
-    if lst is None or len(lst) != 1:
+    # the (def-use expanded) result: a list / array built by one comprehension or an append loop (which expands to a comprehension)
+    from ..flow import _strip_seq
+    ex = e
+    while isinstance(ex, ast.Call) and call_name(ex) in ("array", "asarray", "list", "tuple") and ex.args:
+        ex = ex.args[0]
+    if not (isinstance(ex, (ast.ListComp, ast.GeneratorExp)) and len(ex.generators) == 1 and not ex.generators[0].ifs):
         raise AnalysisError(f"datetimes_array: construction not recognised: {src(r.expr)}")
-    elt, it = lst[0]
-    comp = [c for c in ast.walk(r.expr) if isinstance(c, (ast.ListComp, ast.GeneratorExp))]
-    rng = fl.expand(comp[0].generators[0].iter, r) if comp else None
+    comp = [ex]
+    rng = _strip_seq(comp[0].generators[0].iter)
     ok = rng is not None and call_name(rng) == "range" and len(rng.args) == 1 and linear(rng.args[0], norm=canon) == Lin({"sim._iteration": 1})
     ck.require(ok, rid, f, comp[0].generators[0].iter if comp else r.expr, ok="one entry per simulated period: range(sim.iteration)",
                bad="datetimes_array must have exactly sim.iteration entries (indices 0..iteration-1)", sink="datetimes-range")
@@ -329,7 +333,7 @@ def rule_datetimes(ck, rid="C18.datetimes"):
         if set(kw) == {"minutes"} and canon(kw["minutes"]) == "sim.period" and par:
             other = par[0].right if par[0].left is td[0] else par[0].left
             good = canon(other) == var
-    starts = "sim.start" in canon(e if comp is None else fl.expand(comp[0].elt, r))
+    starts = "sim.start" in canon(comp[0].elt)
     ck.require(good and starts, rid, f, comp[0].elt if comp else r.expr, ok="entry i = start + i x period (minutes)",
                bad="entry i must be sim.start + timedelta(minutes=sim.period * i)", sink="datetimes-step")
 
